@@ -265,7 +265,9 @@ class HypergraphSpec:
         elif n == "clear":
             h.clear()
         elif n == "copy":
-            return h.copy()
+            c = h.copy()
+            wreck_original(h, "H")
+            return c
         else:
             raise ValueError(op)
         return h
@@ -346,6 +348,51 @@ class HypergraphSpec:
             q(lambda: tuple(sorted(((st(e), wv(h.get_weight(e)), cmd(h.get_edge_metadata(e))) for e in h.get_edges()), key=repr))),
             q(lambda: user_hmeta(h.get_hypergraph_metadata())),
         )
+
+
+def wreck_original(h, kind):
+    """after `c = h.copy()` the original is not needed any more: mutate it as hard as the public API allows, so that any
+    structure the copy still shares with it (adjacency lists, metadata dicts, weight tables) shows up in the copy's answers"""
+    try:
+        nodes = list(h.get_nodes())
+        edges = list(h.get_edges())
+    except Exception:
+        return
+    for n in nodes:
+        try:
+            h.set_attr_to_node_metadata(n, "__wrecked", 1)
+        except Exception:
+            pass
+    for e in edges:
+        try:
+            if kind == "T":
+                h.set_attr_to_edge_metadata(e[1], e[0], "__wrecked", 1)
+                if h.is_weighted():
+                    h.set_weight(e[1], e[0], 97)
+            else:
+                h.set_attr_to_edge_metadata(e, "__wrecked", 1)
+                if h.is_weighted():
+                    h.set_weight(e, 97)
+        except Exception:
+            pass
+    try:
+        h.set_attr_to_hypergraph_metadata("__wrecked", 1)
+    except Exception:
+        pass
+    for e in edges:
+        try:
+            h.remove_edge(e[1], e[0]) if kind == "T" else h.remove_edge(e)
+        except Exception:
+            pass
+    for n in nodes:
+        try:
+            h.remove_node(n)
+        except Exception:
+            pass
+    try:
+        h.clear()
+    except Exception:
+        pass
 
 
 def wv(w):
@@ -562,7 +609,9 @@ class DirectedSpec:
         elif n == "clear":
             h.clear()
         elif n == "copy":
-            return h.copy()
+            c = h.copy()
+            wreck_original(h, "D")
+            return c
         else:
             raise ValueError(op)
         return h
@@ -906,7 +955,9 @@ class TemporalSpec:
         elif n == "clear":
             h.clear()
         elif n == "copy":
-            return h.copy()
+            c = h.copy()
+            wreck_original(h, "T")
+            return c
         else:
             raise ValueError(op)
         return h
